@@ -53,6 +53,7 @@ type Prop[C any] struct {
 	Coq      func(c *C) string        // Coq term of the case including the observations; "" = not sent to the model
 	Class    func(c *C) string        // equivalence class for distinct_nontrivial; "" = trivial
 	Extra    func(tier string, rng *rand.Rand, res *Result)
+	ReplayExtra func(raw json.RawMessage, res *Result) bool // replay of a case produced by Extra; false: not such a case
 }
 
 type Args struct {
@@ -103,7 +104,9 @@ func runProp[C any](p Prop[C], a Args) {
 			fatal("replay: %v", err)
 		}
 		var c C
-		if len(rf.Case) > 0 {
+		if len(rf.Case) > 0 && p.ReplayExtra != nil && p.ReplayExtra(rf.Case, res) {
+			// a case of the property's extra (implementation-only) streams: judged by ReplayExtra
+		} else if len(rf.Case) > 0 {
 			if err := json.Unmarshal(rf.Case, &c); err != nil {
 				fatal("replay case: %v", err)
 			}
@@ -280,4 +283,12 @@ func fromB(l []B) [][]byte {
 		o[i] = []byte(l[i])
 	}
 	return o
+}
+
+// trunc shortens a byte string for descriptions.
+func trunc(b []byte) []byte {
+	if len(b) > 24 {
+		return b[:24]
+	}
+	return b
 }
